@@ -18,6 +18,46 @@ from sa.report import Check, Site
 from .util import ev_args, recv_of
 
 
+def canon_text(txt: str) -> str:
+    """Canonical spelling of a value text: constant arithmetic folded, the integer ceiling-division idioms
+    `(x + k - 1) // k`, `-(-x // k)` written as `math.ceil(x / k)`."""
+    try:
+        tree = ast.parse(txt, mode="eval").body
+    except SyntaxError:
+        return txt
+
+    class C(ast.NodeTransformer):
+        def visit_BinOp(self, node: ast.BinOp) -> ast.AST:
+            self.generic_visit(node)
+            l, r = node.left, node.right
+            if isinstance(l, ast.Constant) and isinstance(r, ast.Constant) and isinstance(l.value, int) and isinstance(r.value, int) and not isinstance(l.value, bool) and not isinstance(r.value, bool):
+                try:
+                    v = {ast.Add: l.value + r.value, ast.Sub: l.value - r.value, ast.Mult: l.value * r.value, ast.FloorDiv: l.value // r.value if r.value else None, ast.Mod: l.value % r.value if r.value else None, ast.LShift: l.value << r.value if 0 <= r.value < 256 else None}.get(type(node.op))
+                except Exception:
+                    v = None
+                if v is not None:
+                    return ast.Constant(value=v)
+            if isinstance(node.op, ast.FloorDiv) and isinstance(r, ast.Constant) and isinstance(r.value, int) and r.value > 0:
+                k = r.value
+                if isinstance(l, ast.BinOp) and isinstance(l.op, ast.Add):
+                    for x, c in ((l.left, l.right), (l.right, l.left)):
+                        if isinstance(c, ast.Constant) and c.value == k - 1:
+                            return ast.Call(func=ast.Attribute(value=ast.Name(id="math", ctx=ast.Load()), attr="ceil", ctx=ast.Load()), args=[ast.BinOp(left=x, op=ast.Div(), right=ast.Constant(value=k))], keywords=[])
+            return node
+
+        def visit_UnaryOp(self, node: ast.UnaryOp) -> ast.AST:
+            self.generic_visit(node)
+            o = node.operand
+            if isinstance(node.op, ast.USub) and isinstance(o, ast.BinOp) and isinstance(o.op, ast.FloorDiv) and isinstance(o.left, ast.UnaryOp) and isinstance(o.left.op, ast.USub) and isinstance(o.right, ast.Constant):
+                return ast.Call(func=ast.Attribute(value=ast.Name(id="math", ctx=ast.Load()), attr="ceil", ctx=ast.Load()), args=[ast.BinOp(left=o.left.operand, op=ast.Div(), right=o.right)], keywords=[])
+            return node
+
+    try:
+        return ast.unparse(ast.fix_missing_locations(C().visit(tree)))
+    except Exception:
+        return txt
+
+
 class S:
     def __init__(self, name: str, callee: str, want: t.Optional[t.Dict[str, str]] = None, params: t.Optional[t.List[str]] = None, recv: t.Optional[str] = None, nth: t.Optional[int] = None, why: str = "") -> None:
         self.name = name
@@ -44,12 +84,12 @@ def run_recipe(repo: Repo, chk: Check, rule: str, f: Func, ps: PathSum, steps: t
             ok_all = False
             continue
         ev = evs[0]
-        got = {k: ps.short(v, names) for k, v in ev_args(repo, f, ev, st.params).items()}
-        bad = {k: (got.get(k), w) for k, w in st.want.items() if got.get(k) != w}
+        got = {k: canon_text(ps.short(v, names)) for k, v in ev_args(repo, f, ev, st.params).items()}
+        bad = {k: (got.get(k), w) for k, w in st.want.items() if got.get(k) != canon_text(w)}
         chk.ob(rule, Site.of(f, ev.node), not bad, f"{what}: {st.callee}({', '.join(f'{k}={w}' for k, w in st.want.items())})" if not bad else f"{what}: " + "; ".join(f"{st.callee} {k} is {g!r}, the construction needs {w!r}" for k, (g, w) in bad.items()) + (f" ({st.why})" if st.why else ""))
         ok_all = ok_all and not bad
         names[st.name] = t.cast(ast.AST, ev.tree)
     if ret is not None:
-        got_r = ps.short(ps.value, names)
-        chk.ob(rule, Site.of(f, ps.exit_node, None if ps.exit_node is not None else "return"), got_r == ret, f"{what}: returns {ret}" if got_r == ret else f"{what}: returns {got_r[:120]!r}, the construction returns {ret!r}")
+        got_r = canon_text(ps.short(ps.value, names))
+        chk.ob(rule, Site.of(f, ps.exit_node, None if ps.exit_node is not None else "return"), got_r == canon_text(ret), f"{what}: returns {ret}" if got_r == ret else f"{what}: returns {got_r[:120]!r}, the construction returns {ret!r}")
     return names
